@@ -112,8 +112,12 @@ func negotiationIsPerSession(c *core.Ctx) {
 	for fv := range writes {
 		fields = append(fields, fv)
 	}
-	sort.Slice(fields, func(i, j int) bool { return ownerName(fields[i])+fields[i].Name() < ownerName(fields[j])+fields[j].Name() })
-	isProc := func(n ast.Node) bool { return core.NodeHas(n, func(x ast.Node) bool { return x == ast.Node(procCall) }) }
+	sort.Slice(fields, func(i, j int) bool {
+		return ownerName(fields[i])+fields[i].Name() < ownerName(fields[j])+fields[j].Name()
+	})
+	isProc := func(n ast.Node) bool {
+		return core.NodeHas(n, func(x ast.Node) bool { return x == ast.Node(procCall) })
+	}
 	for _, fv := range fields {
 		gate := func(n ast.Node) bool {
 			if as, ok := n.(*ast.AssignStmt); ok {
